@@ -51,6 +51,7 @@ PROPS["C16"] = dict(
     stages=lambda tier, seed: [
         mc("seq", "MC_C16", "MC_C16_%s.cfg" % tier, expand=G.under_provider(4)),
         gen("walk", G.c16_walks(40 if tier == "quick" else 600, 300), dopts=TRACK),
+        gen("faults", G.c16_faults(), dopts=dict(extra=("--fault", "--fault-only", "Load", "--fault-leak"), timeout=60), target_ops=1),
     ],
     rule=
          "all sequences of keyring mutators up to MaxLen (4 quick / 5 thorough) over an alphabet of 7 loads and removals "
@@ -60,9 +61,12 @@ PROPS["C16"] = dict(
          " 2 and is not ascending (item_get 2, 3, 1, 0, 7, 2^32 + k, count, find x7 (exact, other, shorter, longer, other"
          " case, empty, errored item's kid), error_any, item_get 1, 2); the driver re-reads the list from the last index "
          "down after every mutator, enumerated by TLC from MC_C16; every load must append exactly one item per element of"
-         " its document, whatever state (sticky error, emptied list) the keyring was in (clause C16.append-all); plus "
-         "seeded random walks of 300 operations through every load entry point. distinct = distinct script hashes; every "
-         "case is non-trivial (it contains at least one judged list operation).",
+         " its document, whatever state (sticky error, emptied list) the keyring was in (clause C16.append-all); stage "
+         "'faults': loads of keys of every type into a fresh and an existing set with every allocation request inside the"
+         " loads failing once, each run ended by the removal routes and a leak check (whatever a load does when memory "
+         "runs short, the set stays a list that can be released completely); plus seeded random walks of 300 operations "
+         "through every load entry point. distinct = distinct script hashes; every case is non-trivial (it contains at "
+         "least one judged list operation).",
     assumptions=ASSUME_COMMON,
     level_text="TLC explores every sequence of keyring operations up to the bound on the specification (list invariants checked there) and every one of those behaviours is replayed into libjwt; each observed list (ids by pointer identity, counts, find results, return values) must equal the model's after every operation. Exhaustive up to the bound, sampled (seeded walks) beyond it.",
     level_note="Bounded: sequences of <= 4 (quick) / 5 (thorough) mutators over a 2-kid alphabet; use-after-free and leaks are observed by ASan/LSan on the executed sequences only (leak check every 25 cases and at exit).",
@@ -87,17 +91,18 @@ PROPS["C15"] = dict(
          "alphabet (set INT/STR/BOOL/JSON obj, a second object carrying a real, a null, a nested object and an array, a "
          "third whose nested object has other keys (replace overwrites, never merges), arr, malformed, scalar, NULL text;"
          " names a, b, empty, NULL; with and without replace; named INT/STR/BOOL sets on the names the JSON objects merge"
-         " in and JSON text with white space around every token (tab, CR, LF, blanks: both tried in every reachable "
-         "state, not used to reach further states); get of each type; delete one/all), one implementation test per "
-         "transition, on builder claims and builder headers, and the same behaviours on the jwt_t inside a generate "
-         "callback and a verify callback; (seq) all sequences up to length 3 (quick) / 4 (thorough) over a 20-operation "
-         "alphabet (incl. the empty string and non-UTF-8 strings as values); every request's jwt_value_t carries a stale "
-         "error code and the previous request's bits in its value union (only the member of the request's type is "
-         "written, as the public macros do); (walk) seeded random walks of 200 operations with 64-bit extremes; (alias) a"
-         " member of every type stored on the builder, the same name replaced / deleted / deleted-all on the token by the"
-         " callback or stamped by the library (iat, nbf, exp), two generates, builder read back: the builder's maps hold "
-         "what was stored on the builder. After every operation the whole header and claim objects are read back and "
-         "compared with the model. distinct = distinct script hashes.",
+         " in and JSON text with white space around every token (tab, CR, LF, blanks) and JSON text whose strings carry "
+         "the escape \\u0000 (refused like malformed text: a set that takes it and a get that returns less than was stored"
+         " breaks the map) (all tried in every reachable state, not used to reach further states); get of each type; "
+         "delete one/all), one implementation test per transition, on builder claims and builder headers, and the same "
+         "behaviours on the jwt_t inside a generate callback and a verify callback; (seq) all sequences up to length 3 "
+         "(quick) / 4 (thorough) over a 20-operation alphabet (incl. the empty string and non-UTF-8 strings as values); "
+         "every request's jwt_value_t carries a stale error code and the previous request's bits in its value union (only"
+         " the member of the request's type is written, as the public macros do); (walk) seeded random walks of 200 "
+         "operations with 64-bit extremes; (alias) a member of every type stored on the builder, the same name replaced /"
+         " deleted / deleted-all on the token by the callback or stamped by the library (iat, nbf, exp), two generates, "
+         "builder read back: the builder's maps hold what was stored on the builder. After every operation the whole "
+         "header and claim objects are read back and compared with the model. distinct = distinct script hashes.",
     assumptions=ASSUME_COMMON,
     level_text="TLC explores the complete state graph of the typed-map specification (78 states, every operation "
                "from every state) and checks the map laws on it; each transition is replayed into libjwt at four "
@@ -110,7 +115,7 @@ PROPS["C15"] = dict(
 
 PROPS["C02"] = dict(
     level="model_checking", exhaustive=True,
-    stages=lambda tier, seed: [mc("matrix", "MC_C02", "MC_C02_%s.cfg" % tier), mc("faults", "MC_C02", "MC_C02_fault.cfg", dopts=dict(extra=("--fault", "--fault-only", "Verify"), timeout=60), target_ops=1), gen("apiwalk", G.api_walks(300 if tier == "quick" else 20000, 60), dopts=TRACK)],
+    stages=lambda tier, seed: [mc("matrix", "MC_C02", "MC_C02_%s.cfg" % tier), gen("toolpin", G.c02_toolpin(), dopts=dict(runner="tools"), target_ops=12), mc("faults", "MC_C02", "MC_C02_fault.cfg", dopts=dict(extra=("--fault", "--fault-only", "Verify"), timeout=60), target_ops=1), gen("apiwalk", G.api_walks(300 if tier == "quick" else 20000, 60), dopts=TRACK)],
     rule=
          "finite matrix enumerated by TLC from MC_C02: (A) configured alg x key (absent, or key type x alg attribute "
          "incl. none, unknown and a family prefix such as HS) x {setkey, callback} on checker and builder; (B) every "
@@ -128,10 +133,11 @@ PROPS["C02"] = dict(
          "whatever the default key or the object says), with the callback handing back the key alone or the key and "
          "algorithm none; (F) the object holds a key whose alg attribute pins its algorithm and the callback keeps that "
          "key but names another algorithm of the same family (token genuinely signed under that other algorithm; builder:"
-         " generate). Stage 'faults': every allocation request made inside jwt_checker_verify fails once on the classic "
-         "substitutions (HMAC under the public PEM / the empty key, another key, unsigned, stripped, a sibling algorithm)"
-         " through setkey and through the callback. quick uses one key per family and 9 of 16 configured algs, thorough "
-         "all. distinct = distinct cells (script hashes).",
+         " generate). Stage 'toolpin': the table on the command line - jwt-verify -a / --algorithm with key files whose "
+         "key carries an alg attribute, agreeing and disagreeing pins. Stage 'faults': every allocation request made "
+         "inside jwt_checker_verify fails once on the classic substitutions (HMAC under the public PEM / the empty key, "
+         "another key, unsigned, stripped, a sibling algorithm) through setkey and through the callback. quick uses one "
+         "key per family and 9 of 16 configured algs, thorough all. distinct = distinct cells (script hashes).",
     assumptions=ASSUME_COMMON,
     level_text="The space is finite and TLC enumerates it completely within the chosen key set; the reference "
                "outcome is shown to satisfy C02 on every cell, and every cell is executed against libjwt and judged "
@@ -150,16 +156,17 @@ PROPS["C03"] = dict(
          "finite matrix from MC_C03: checker set-ups (key loaded but not set / set with or without explicit alg; key with"
          " and without alg attribute) x callback {none, empty, sets key, sets alg, sets both, key + alg none} x header "
          "alg {none, None, NONE, the matching algorithm, missing, each non-string JSON type, none followed by a space or "
-         "by a NUL character, the empty string, n} x signature {empty, valid, garbage} x shape {3 segments, 2 segments, 4"
-         " segments, 4 with empty last}; the key-less checker against every token class and every one of the 13 algorithm"
-         " names in the header; builder set-ups x the same callbacks -> generate; the callback's life cycle (setcb, "
-         "context-only setcb(NULL, ctx), setcb(NULL, NULL) in seven orders) before a generate / verify on objects keyed "
-         "only through the callback. Every one of the 13 algorithms pinned (setkey and callback) on a private key of "
-         "every type without alg attribute (oct 32/64, RSA 2048/3072, P-256/384/521, secp256k1, Ed25519, Ed448) under "
-         "both providers -> generate: whatever a keyed builder returns carries a signature. Stage 'faults': every "
-         "allocation request made inside jwt_checker_verify fails once on keyed checkers (setkey, setkey + callback, key "
-         "through the callback only) handed unsigned and stripped tokens. oct and RSA keys in quick, all key types in "
-         "thorough. distinct = distinct cells.",
+         "by a NUL character, the empty string, n} x signature {empty, valid, garbage, a third segment of '=' only (1, 2,"
+         " 4; for the key-less checker also 3 and 8)} x shape {3 segments, 2 segments, 4 segments, 4 with empty last}; "
+         "the key-less checker against every token class and every one of the 13 algorithm names in the header; builder "
+         "set-ups x the same callbacks -> generate; the callback's life cycle (setcb, context-only setcb(NULL, ctx), "
+         "setcb(NULL, NULL) in seven orders) before a generate / verify on objects keyed only through the callback. Every"
+         " one of the 13 algorithms pinned (setkey and callback) on a private key of every type without alg attribute "
+         "(oct 32/64, RSA 2048/3072, P-256/384/521, secp256k1, Ed25519, Ed448) under both providers -> generate: whatever"
+         " a keyed builder returns carries a signature. Stage 'faults': every allocation request made inside "
+         "jwt_checker_verify fails once on keyed checkers (setkey, setkey + callback, key through the callback only) "
+         "handed unsigned and stripped tokens. oct and RSA keys in quick, all key types in thorough. distinct = distinct "
+         "cells.",
     assumptions=ASSUME_COMMON,
     level_text="Complete enumeration of the configuration x token-shape matrix on the specification (reference outcome "
                "satisfies C03 on every cell) and replay of every cell into libjwt; an accepted token must be signed "
@@ -223,11 +230,12 @@ PROPS["C09"] = dict(
          "Ed25519 and Ed448; algorithm x key of another kind altogether (EdDSA/ES256/RS256/HS256 with EC, RSA, OKP and "
          "oct keys, token signed genuinely under the key's own algorithm); each through generate (private key), verify of"
          " the generated token and verify of a token signed by the driver's own signer (public key), on OpenSSL and "
-         "GnuTLS. Reuse scripts: one checker, the same key first under the algorithm it is made for (accepted), then - "
-         "through setkey or the callback - under an algorithm that asks for more (ES256 -> ES384/ES512, ES384 -> ES512, "
-         "HS256 -> HS384/HS512, ...) with a token genuinely signed with that hash by that key, then the first token "
-         "again. Both directions are judged: below the floor never succeeds, at or above it works. distinct = distinct "
-         "cells.",
+         "GnuTLS. Keys whose import FAILED (missing e, n not base64, point off the curve, unknown curve, short x) handed "
+         "to generate and verify: never a success. Reuse scripts: one checker, the same key first under the algorithm it "
+         "is made for (accepted), then - through setkey or the callback - under an algorithm that asks for more (ES256 ->"
+         " ES384/ES512, ES384 -> ES512, HS256 -> HS384/HS512, ...) with a token genuinely signed with that hash by that "
+         "key, then the first token again. Both directions are judged: below the floor never succeeds, at or above it "
+         "works. distinct = distinct cells.",
     assumptions=ASSUME_COMMON,
     level_text="The matrix is finite and enumerated completely (every oct length in thorough); TLC shows the reference "
                "outcome satisfies C09 on every cell and every cell is executed against libjwt.",
@@ -254,9 +262,10 @@ PROPS["C14"] = dict(
          "that moves while the call is in progress (every reading one second later) against tokens that expire / become "
          "valid within that second: one verdict, one explanation; stages faultsv / faultsg / faultsl: every allocation "
          "request made inside verify / generate / a key load fails once - return value, error flag and message still "
-         "agree, every errored item is explained; value set/get calls incl. string values that are not UTF-8 on a fresh "
-         "name, on an existing one with and without replace, and from a generate callback (every request carries a stale "
-         "error code in its jwt_value_t). distinct = distinct scripts.",
+         "agree, every errored item is explained; whole-object sets whose text is an array / a scalar / malformed / NULL "
+         "(the same code in the return value and in the value's error field); value set/get calls incl. string values "
+         "that are not UTF-8 on a fresh name, on an existing one with and without replace, and from a generate callback "
+         "(every request carries a stale error code in its jwt_value_t). distinct = distinct scripts.",
     assumptions=ASSUME_COMMON,
     level_text="Every externally reachable failure cause the specification knows (its reject classes) is enumerated by "
                "TLC and executed; after each call the return value, the error flag and the message-non-empty bit "
@@ -351,8 +360,10 @@ PROPS["C13"] = dict(
          "bad signature, error_clear) under an application allocator whose fresh blocks hold something else each time "
          "(blank, NUL, '}', 'A', 0xbe, '\"'): the same answer every time whatever the heap held; stage 'rotation' (as in "
          "C01, zero ASan quarantine): the checker's key ring is freed and another key loaded where the old one was, under"
-         " either provider - the verdict follows the key that is configured now; a memo family: RS256 and EdDSA "
-         "(deterministic signatures) - the token just accepted, then the same signature under a payload / a header "
+         " either provider - the verdict follows the key that is configured now; RSA keys of 2048 / 3072 / 4096 bits "
+         "under one algorithm in every order through setkey and the callback, with clause genfunction (whether a token "
+         "comes out is the function of configuration and clock the specification computes); a memo family: RS256 and "
+         "EdDSA (deterministic signatures) - the token just accepted, then the same signature under a payload / a header "
          "altered after signing; every verify/generate is also performed on a freshly created twin configured by "
          "replaying the same configuration calls, and both results are logged; besides reused = fresh, every verdict must"
          " be the one the specification computes from configuration, token and clock (clause C13.function), so a "
@@ -374,8 +385,9 @@ PROPS["C10"] = dict(
     rule=
          "from MC_C10: all sequences of 3 builder configuration calls over an alphabet of 19 (quick) / 35 (thorough) "
          "calls - header set (typ as string and as integer, user-set alg as string and as boolean, kid) and delete, claim"
-         " set (same-named iat/exp/nbf, sub, bool; JSON reals that need 17 significant digits - the driver projects reals"
-         " with %.17g) and delete, enable_iat 0/1, time_offset for exp/nbf in {-5, 0, 1, 60, 3600, 2^31, 2^32+5, a "
+         " set (same-named iat/exp/nbf, sub, bool; a member that is itself an object replaced by a whole-object set (the "
+         "later object stands, it is not merged); JSON reals that need 17 significant digits - the driver projects reals "
+         "with %.17g) and delete, enable_iat 0/1, time_offset for exp/nbf in {-5, 0, 1, 60, 3600, 2^31, 2^32+5, a "
          "century} and for an invalid claim, setkey (HS256 oct, RS256 private, RS256 public-only, ES256, none, remove), "
          "setcb with two mutating programs and removal (setcb(NULL, NULL); a callback that still runs afterwards, with no"
          " context, leaves a mark in the token that the specification's token lacks), clock changes - with a generate "
@@ -404,18 +416,19 @@ PROPS["C05"] = dict(
          "{openssl, gnutls}^2 x header tree class x claim tree class {flat, nested depth 6, unicode (+ empty, 63-bit "
          "integers, strings to 64 KiB in thorough)} x time configuration {default, exp+nbf offsets with clock advance, "
          "iat off, expiry a century / 2^31+1000 s ahead, exp claims of year 9999 and LONG_MAX, the application's own iat "
-         "with the automatic one off and on}; plus an application-set typ / kid / crit header of every JSON type "
-         "(integer, boolean, empty string, object, array) and JSON text with the escape \\u0000 inside strings given to "
-         "the builder's header and claims (taken or refused, what is generated must verify); generate, then verify on a "
-         "checker holding the public form with a callback that reads header and claims. Integers beyond 2^53 are in the "
-         "quick trees too. JSON trees are seeded random per case; what the builder was given, what the token carries and "
-         "what the callback read are digested by one canonicaliser (sorted, compact) after removing alg/typ/iat/nbf/exp, "
-         "which are compared member by member. Stage 'faults': 4 algorithms x both providers x 2 time configurations with"
-         " EVERY allocation request made inside jwt_builder_generate failing once (fault enumeration as in C17, "
-         "restricted to that call): whatever token is returned although an allocation failed carries what the builder was"
-         " given plus alg/typ/iat/nbf/exp. Stage 'ecdsa': 500 (quick) / 20000 (thorough) generate+verify pairs per curve "
-         "and signing provider; coverage.short_rs counts signatures whose r or s has a leading zero byte. distinct = "
-         "distinct scripts.",
+         "with the automatic one off and on, offsets switched on and off again with 0 / -1 (a time claim nobody asked for"
+         " is not in the token)}; plus an application-set typ / kid / crit header of every JSON type (integer, boolean, "
+         "empty string, object, array) and JSON text with the escape \\u0000 inside strings given to the builder's header "
+         "and claims (taken or refused, what is generated must verify); generate, then verify on a checker holding the "
+         "public form with a callback that reads header and claims. Integers beyond 2^53 are in the quick trees too. JSON"
+         " trees are seeded random per case; what the builder was given, what the token carries and what the callback "
+         "read are digested by one canonicaliser (sorted, compact) after removing alg/typ/iat/nbf/exp, which are compared"
+         " member by member. Stage 'faults': 4 algorithms x both providers x 2 time configurations with EVERY allocation "
+         "request made inside jwt_builder_generate failing once (fault enumeration as in C17, restricted to that call): "
+         "whatever token is returned although an allocation failed carries what the builder was given plus "
+         "alg/typ/iat/nbf/exp. Stage 'ecdsa': 500 (quick) / 20000 (thorough) generate+verify pairs per curve and signing "
+         "provider; coverage.short_rs counts signatures whose r or s has a leading zero byte. distinct = distinct "
+         "scripts.",
     assumptions=ASSUME_COMMON + ["JSON equality is decided on SHA-256 digests of jansson's canonical dump computed by the driver for all three sides"],
     level_text="The behaviour matrix (key/alg x provider pair x tree class x time configuration) is enumerated by TLC, "
                "which also shows that on the specification every generated token is accepted by the matching checker; "
@@ -430,7 +443,7 @@ _ENVS = ["openssl", "gnutls", "GnuTLS", "gnutls ", "mbedtls", "", "x", "opensslg
 
 
 def _c12_stages(tier, seed):
-    st = [mc("matrix", "MC_C12", "MC_C12_%s.cfg" % tier, expand=G.replicate(2 if tier == "quick" else 60))]
+    st = [mc("matrix", "MC_C12", "MC_C12_%s.cfg" % tier, expand=G.replicate(2 if tier == "quick" else 60), dopts=TRACK)]
     for i, v in enumerate(_ENVS):
         st.append(gen("env%d" % i, (lambda vv: (lambda seed: [[dict(op="OpsEnv", want=vv)]]))(v), dopts=dict(env={"JWT_CRYPTO": v}), exhaustive=True))
     st.append(gen("envunset", lambda seed: [[dict(op="OpsEnv", want="~")]], exhaustive=True))
@@ -442,10 +455,11 @@ PROPS["C12"] = dict(
     level="model_checking", exhaustive=True,
     stages=_c12_stages,
     rule=
-         "from MC_C12: (A) one forged token per cell, kept in a slot and verified under both providers in both orders "
-         "(key loaded under either provider): every common (key, algorithm) pair (oct keys of 32..100 octets: equal to "
-         "and longer than the hash output, up to and beyond the block size) x {valid, empty, garbage, not base64, flipped"
-         " first/any bit, truncated, extended with zero/random bytes, signed over other text, other key, sibling "
+         "from MC_C12, run under the tracking allocator (a block it never handed out that reaches its free() is an "
+         "abort): (A) one forged token per cell, kept in a slot and verified under both providers in both orders (key "
+         "loaded under either provider): every common (key, algorithm) pair (oct keys of 32..100 octets: equal to and "
+         "longer than the hash output, up to and beyond the block size) x {valid, empty, garbage, not base64, flipped "
+         "first/any bit, truncated, extended with zero/random bytes, signed over other text, other key, sibling "
          "algorithm, ES: zero-extended r||s and DER} and header/payload altered after signing; (A') the same with key "
          "attributes neither provider consumes (use, key_ops of six kinds) and the PRIVATE form of the key as "
          "verification key; (A'') the provider is the process's: after every selection a second thread reads, and in some"
@@ -516,23 +530,23 @@ PROPS["C07"] = dict(
     rule=
          "(defects) from MC_C07: ten valid baselines (oct, RSA private/public/PSS, P-256 private, P-384, P-521, "
          "secp256k1, Ed25519 private, Ed448 public) x every member of that key type and the common members (kty, alg, "
-         "use, key_ops, kid; n,e,d,p,q,dp,dq,qi; crv,x,y,d; k) x 14 classes (absent, null, integer, real, bool, array, "
-         "object, empty string, not base64url, length 1 mod 4, too short, too long, unknown string, foreign value) - one "
-         "member (quick) or two members (thorough) deviating - as a single JWK and between two good keys in a JWKS; every"
-         " entry point (load, load_strn, create, create_strn, fromfile, fromfp, create_fromfile, create_fromfp) x "
-         "document class (JWKS, JWKS with extra members, top-level array, 10 non-JSON texts, 10 JSON documents that are "
-         "not JWK objects, keys array of non-objects). (fuzz) 63 texts carrying printf conversions in unterminated tokens"
-         " (quoted by the parser's error text) and in member values through every entry point, seeded random bytes, "
-         "random JSON over JWK member names and byte-mutated JWKS texts (mutations insert conversions too), judged only "
-         "for 'returns, no sanitizer report, no leak, each new item errored-with-message or usable'. ASan+UBSan, leak "
-         "check every 10 cases. (alloc) keys of every type, well-formed and defective, through every entry point and "
-         "through find / free_bad / item_free / free_all / jwks_free under both providers with an application allocator "
-         "that is not libc's: the driver tracks every block it handed out, and a block it never handed out that reaches "
-         "its free() from inside a library call is an abort. After every case the lowest free descriptor is where it was "
-         "when the case began (a FILE or descriptor left open is a leak too: clause fdleak). Stage 'switch': keys of "
-         "every type loaded under one provider and released under the other through every removal route, leak check after"
-         " every case. Defect classes include member values with characters beyond ASCII (valid UTF-8). distinct = "
-         "distinct scripts.",
+         "use, key_ops, kid; n,e,d,p,q,dp,dq,qi; crv,x,y,d; k) x 14 classes (absent, null, integer, valid base64url of 3 "
+         "KiB (huge), real, bool, array, object, empty string, not base64url, length 1 mod 4, too short, too long, "
+         "unknown string, foreign value) - one member (quick) or two members (thorough) deviating - as a single JWK and "
+         "between two good keys in a JWKS; every entry point (load, load_strn, create, create_strn, fromfile, fromfp, "
+         "create_fromfile, create_fromfp) x document class (JWKS, JWKS with extra members, top-level array, 10 non-JSON "
+         "texts, 10 JSON documents that are not JWK objects, keys array of non-objects). (fuzz) 63 texts carrying printf "
+         "conversions in unterminated tokens (quoted by the parser's error text) and in member values through every entry"
+         " point, seeded random bytes, random JSON over JWK member names and byte-mutated JWKS texts (mutations insert "
+         "conversions too), judged only for 'returns, no sanitizer report, no leak, each new item errored-with-message or"
+         " usable'. ASan+UBSan, leak check every 10 cases. (alloc) keys of every type, well-formed and defective, through"
+         " every entry point and through find / free_bad / item_free / free_all / jwks_free under both providers with an "
+         "application allocator that is not libc's: the driver tracks every block it handed out, and a block it never "
+         "handed out that reaches its free() from inside a library call is an abort. After every case the lowest free "
+         "descriptor is where it was when the case began (a FILE or descriptor left open is a leak too: clause fdleak). "
+         "Stage 'switch': keys of every type loaded under one provider and released under the other through every removal"
+         " route, leak check after every case. Defect classes include member values with characters beyond ASCII (valid "
+         "UTF-8). distinct = distinct scripts.",
     assumptions=ASSUME_COMMON,
     level_text="The JWK defect lattice (document class x key type x member x value class) is enumerated completely by "
                "TLC and executed: set error and no items for non-JSON, exactly one item per element in order, every "
@@ -557,14 +571,15 @@ PROPS["C08"] = dict(
          "members; unknown members of every JSON type - true, false, number, real, null, object - for every key type) "
          "with plain metadata; OKP keys whose x or d begins with a zero octet, oct keys whose first / last octet is NUL, "
          "newline, space, '=' or 0xff, oct keys whose k is written WITH '=' padding (1..65 octets: the octets are the "
-         "decoding of k); as a single JWK and inside a JWKS; key_ops lists of every single operation, every ordered pair "
-         "(incl. a repeated name), every set of seven and the reverse order on an oct, an EC and an OKP key; and "
-         "'history' cells: each of five defective keys (point not on the curve, unknown curve, short coordinate, "
-         "incomplete RSA private key, short OKP key) imported before a well-formed key of every type - in the same set "
-         "and by an earlier call on the same thread. Stage 'fresh' repeats every 9th (quick) / every 2nd (thorough, 4 "
-         "times) cell with key material generated on the spot (OpenSSL keygen, fresh oct bytes). The driver exports with "
-         "its own exporter, parses the item's PEM with OpenSSL and compares public and private components with the "
-         "exported key. distinct = distinct scripts.",
+         "decoding of k); as a single JWK and inside a JWKS; RSA keys outside the usual (a 72-bit public exponent, a "
+         "9216-bit modulus, a short private exponent) in every integer encoding; key_ops lists of every single operation,"
+         " every ordered pair (incl. a repeated name), every set of seven and the reverse order on an oct, an EC and an "
+         "OKP key; and 'history' cells: each of five defective keys (point not on the curve, unknown curve, short "
+         "coordinate, incomplete RSA private key, short OKP key) imported before a well-formed key of every type - in the"
+         " same set and by an earlier call on the same thread. Stage 'fresh' repeats every 9th (quick) / every 2nd "
+         "(thorough, 4 times) cell with key material generated on the spot (OpenSSL keygen, fresh oct bytes). The driver "
+         "exports with its own exporter, parses the item's PEM with OpenSSL and compares public and private components "
+         "with the exported key. distinct = distinct scripts.",
     assumptions=ASSUME_COMMON + ["equality of key components (big numbers, octets) is computed by the driver's projection against the key it exported; TLC judges the projected record"],
     level_text="The structural matrix (type x size x form x metadata x encoding x extras) is enumerated by TLC and each "
                "cell executed; every reported attribute must equal what the JWK states and the key material must "
@@ -643,22 +658,24 @@ PROPS["C17"] = dict(
 PROPS["C18"] = dict(
     level="exploration", variant="tsan", exhaustive=False, call_timeout=300,
     stages=lambda tier, seed: [mc("threads", "MC_C18", "MC_C18_%s.cfg" % tier, target_ops=1,
-                                  dopts=dict(env={"TSAN_OPTIONS": "halt_on_error=1:exitcode=66:report_signal_unsafe=0:second_deadlock_stack=1"}))],
+                                  dopts=dict(timeout=60 if tier == "quick" else 300,      # (a quick case takes a second or two)
+                                             env={"TSAN_OPTIONS": "halt_on_error=1:exitcode=66:report_signal_unsafe=0:second_deadlock_stack=1"}))],
     rule=
          "On the specification (MC_C18): all interleavings of three threads, each taking generate / verify own token / "
          "verify damaged token on its own builder and checker over one shared keyring; every result equals the result of "
          "the same call made alone; the keyring, provider and clock are never written. Against the implementation: 12 "
          "(GnuTLS) / 13 (OpenSSL) threads at once - HS256, HS512, RS256, PS256, ES256, ES384, ES512, EdDSA (Ed25519, "
-         "Ed448), ES256K, three algorithms twice - each with its own builder and checker, sharing one keyring of 12 keys,"
-         " 150 (quick) / 2000 (thorough) iterations of claim_set + generate + verify + verify damaged, random start skew,"
-         " 6 (quick) / 30 (thorough) repetitions per provider - in one repetition of three the threads hold their keys, "
-         "in one they look them up by kid in the shared keyring from their callbacks at every call (jwks_find_bykid), in "
-         "one they walk the shared keyring by index (jwks_item_count / jwks_item_get) -, libjwt and driver built with "
-         "ThreadSanitizer (halt on first report); the same calls are also made one after another - before the threads "
-         "start in every other repetition, AFTER them in the others, so that whatever the library initialises lazily is "
-         "initialised by racing threads - and both result lists (verdicts, and token digests for deterministic "
-         "algorithms) are compared in TLC. distinct = distinct (provider, repetition) runs; evaluations = Thread events "
-         "judged.",
+         "Ed448), ES256K, three algorithms twice, and two threads whose every signing request the provider refuses "
+         "(ES256K under GnuTLS, ES256 with an Ed25519 key) - each with its own builder and checker, sharing one keyring "
+         "of 12 keys, 150 (quick) / 2000 (thorough) iterations of claim_set + generate + verify + verify damaged, random "
+         "start skew, 6 (quick) / 30 (thorough) repetitions per provider - in one repetition of three the threads hold "
+         "their keys, in one they look them up by kid in the shared keyring from their callbacks at every call "
+         "(jwks_find_bykid), in one they walk the shared keyring by index (jwks_item_count / jwks_item_get) -, libjwt and"
+         " driver built with ThreadSanitizer (halt on first report); the same calls are also made one after another - "
+         "before the threads start in every other repetition, AFTER them in the others, so that whatever the library "
+         "initialises lazily is initialised by racing threads - and both result lists (verdicts, and token digests for "
+         "deterministic algorithms) are compared in TLC. distinct = distinct (provider, repetition) runs; evaluations = "
+         "Thread events judged.",
     assumptions=ASSUME_COMMON + ["data races are detected by ThreadSanitizer on the schedules that actually occurred; OpenSSL, GnuTLS and jansson are not instrumented"],
     level_text="Exploration: schedules of the real code are sampled under a race detector, not enumerated; the model-"
                "checked part is the design (no shared mutable state between separate builders/checkers).",
@@ -678,19 +695,20 @@ PROPS["C20"] = dict(
          "token lists good^g bad^b in three orders for g in {0,1,3} and b in {0,1,2,255,256,257,512} (quick) / every b in"
          " 0..520 (thorough): exit status zero iff every token verified, failure counter exact. Against the tools built "
          "from the working tree: jwt-verify over the same counts through argv and stdin in two orders (tokens made by "
-         "jwt-generate; failing ones by damaging the signature), plus 1, 3 and 600 good tokens with 0 or 2 bad ones in "
-         "each output mode (plain, -v, -v -p CMD; short and long spellings) under the usual 1024-descriptor limit; "
-         "jwt-generate | jwt-verify round trips for ten key/alg pairs (key with and without alg attribute, so that "
-         "-a/--algorithm is exercised) x short/long option spelling on either side x --json x --no-iat, with -c/--claim "
-         "of every type, incl. integer claims beyond 32 bits (exp in 2100, nbf in 1840, 2^53 + 1); key2jwk on every "
-         "fixture key file (RSA 512..4096, every curve incl. twelve EC keys whose x, y or d has a leading zero byte, "
-         "Ed25519, Ed448; private and public PEM; oct files of 32..512 bytes), and an id-RSASSA-PSS key file (private and"
-         " public): one key, imported by the library without error, same public and private components (driver "
-         "projection), fixed-width EC x/y/d, minimal-length RSA members (no leading zero octet; fixture rsa2048z has a "
-         "private exponent one octet short); jwk2key of that JWKS, and the file it writes converted again must still be "
-         "the same key, of the same type (rsaEncryption / id-RSASSA-PSS); key2jwk with several files in one invocation "
-         "(every order of an oct, an RSA, an EC and an Ed25519 file, all pairs incl. repeated types): the i-th JWK must "
-         "denote the i-th file's key. distinct = distinct cells.",
+         "jwt-generate; failing ones by damaging the signature, or - lines and arguments that BEGIN with a good token - "
+         "by appending a blank, a TAB or a CR and more text, a second token, or a leading blank), plus 1, 3 and 600 good "
+         "tokens with 0 or 2 bad ones in each output mode (plain, -v, -v -p CMD; short and long spellings) under the "
+         "usual 1024-descriptor limit; jwt-generate | jwt-verify round trips for ten key/alg pairs (key with and without "
+         "alg attribute, so that -a/--algorithm is exercised) x short/long option spelling on either side x --json x "
+         "--no-iat, with -c/--claim of every type, incl. integer claims beyond 32 bits (exp in 2100, nbf in 1840, 2^53 + "
+         "1); key2jwk on every fixture key file (RSA 512..4096, every curve incl. twelve EC keys whose x, y or d has a "
+         "leading zero byte, Ed25519, Ed448; private and public PEM; oct files of 32..512 bytes), and an id-RSASSA-PSS "
+         "key file (private and public): one key, imported by the library without error, same public and private "
+         "components (driver projection), fixed-width EC x/y/d, minimal-length RSA members (no leading zero octet; "
+         "fixture rsa2048z has a private exponent one octet short); jwk2key of that JWKS, and the file it writes "
+         "converted again must still be the same key, of the same type (rsaEncryption / id-RSASSA-PSS); key2jwk with "
+         "several files in one invocation (every order of an oct, an RSA, an EC and an Ed25519 file, all pairs incl. "
+         "repeated types): the i-th JWK must denote the i-th file's key. distinct = distinct cells.",
     assumptions=ASSUME_COMMON + ["tool output is decoded by the Python runner (bin/vtools.py), which logs and never judges; key identity is decided by the driver's projection against the key it exported"],
     level_text="The exit-status relation is model-checked on the tool machine for every count up to 520; every cell "
                "is executed against the real tools and the logged exit statuses, token shapes, member widths and key "
